@@ -89,10 +89,15 @@ def group_by(key_mapper, pipeline):
     Returns:
         A MuxObservable with one observable per group.
     """
-    _group_by, outer_obs = group_by_mux(key_mapper)
     pipeline = rx.pipe(*pipeline) if type(pipeline) is list else pipeline
-    return rx.pipe(
-        _group_by,
-        pipeline,
-        demux_mux_observable(outer_obs),
-    )
+
+    def _group_by_op(source):
+        # one outer observer per application of the operator
+        _group_by, outer_obs = group_by_mux(key_mapper)
+        return rx.pipe(
+            _group_by,
+            pipeline,
+            demux_mux_observable(outer_obs),
+        )(source)
+
+    return _group_by_op
